@@ -11,6 +11,7 @@ CONSTANTS
   Dev_IgnoreDeviceError = FALSE
   Dev_SkipSleep = FALSE
   Dev_NoEraseLoop = FALSE
+  Dev_IgnoreSetAddrError = FALSE
 INVARIANT TypeOK
 INVARIANT NoRequestWhileBusy
 INVARIANT PollDelayHonoured
